@@ -7,14 +7,19 @@ from gen import slivermap
 
 ID = "C02"
 GENERATORS = [slivermap.generate]
-LEAN_MODULES = ["FimVerif.Proofs.C02", "FimVerif.Proofs.Lemmas.C02Codec"]
+LEAN_MODULES = ["FimVerif.Proofs.C02", "FimVerif.Proofs.Lemmas.C02Codec", "FimVerif.Proofs.Lemmas.C02Rich"]
 P = "FimVerif.C02."
 THEOREMS = [P + t for t in (
     "tables_ok", "props_roundtrip_partial", "props_roundtrip_counterexample", "settable_rebuilt",
     "set_get", "set_frame", "unset_get", "unset_identity_rejected", "unset_frame",
     "unset_table_ok_partial", "unset_counterexample", "dict_roundtrip_partial", "image_join_split",
     "image_type_comma_counterexample", "graph_roundtrip_partial", "graph_roundtrip_component_partial",
-    "graph_children_perm", "rowLaw_of_roundTrips", "rowLaw_jsonfield")]
+    "graph_children_perm", "rowLaw_of_roundTrips", "rowLaw_jsonfield",
+    "routes_ok", "rows_ok", "set_get_every_route", "unset_get_every_route", "unset_identity_every_route",
+    "attr_unset_image_type_counterexample",
+    # the codec hypothesis discharged for the value model that carries C03's and C12's codec models
+    "rich_rowLaw", "fieldLaw_rich", "typed_wf", "rich_rows_ok", "fieldLaw_discharged", "props_roundtrip_typed_partial",
+    "dict_roundtrip_typed_partial", "graph_roundtrip_typed_partial", "graph_roundtrip_component_typed_partial")]
 TRUSTED_BASE = [
     "gen/slivermap.py: AST patterns of the *_sliver_to_graph_properties_dict / *_from_graph_properties_dict family, "
     "SLIVER_PROPERTY_TO_GRAPH, the setters of the sliver classes; dynamic probes for absent-property decoding, None-tolerant setters, enum resolution",
@@ -612,6 +617,52 @@ def path_graph(t):
         g.delete_graph()
 
 
+PARENT_CLASS = {"component": "NetworkNode", "service": "Component", "interface": "NetworkService"}
+
+
+def path_graph_parent(t, mode, pid="c02-px"):
+    """the graph path of a component / service / interface sliver below a parent node that exists (`present`) or does
+    not (`missing`: add_link's `_find_node` of the parent raises)"""
+    from fim.graph.networkx_property_graph import NetworkXPropertyGraph, NetworkXGraphImporter
+    r = R.get()
+    s = build_sliver(t)
+    _gid[0] += 1
+    g = NetworkXPropertyGraph(graph_id="c02-graph-%d" % _gid[0], importer=NetworkXGraphImporter())
+    try:
+        k = t["k"]
+        if mode == "present":
+            g.add_node(node_id=pid, label=PARENT_CLASS[k], props={})
+        if k == "component":
+            g.add_component_sliver(parent_node_id=pid, component=s)
+            return g.build_deep_component_sliver(node_id=s.node_id)
+        if k == "service":
+            g.add_network_service_sliver(parent_node_id=pid, network_service=s)
+            return g.build_deep_ns_sliver(node_id=s.node_id)
+        g.add_interface_sliver(parent_node_id=pid, interface=s)
+        return g.build_deep_interface_sliver(node_id=s.node_id)
+    finally:
+        g.delete_graph()
+
+
+def clash_ids(rng, t):
+    """a copy of the tree in which one element takes the node id of another (add_node rejects an id the graph holds,
+    whatever the class of the holder)"""
+    import copy
+    t2 = copy.deepcopy(t)
+    flat = []
+
+    def walk(x):
+        flat.append(x)
+        for c in x["c"]:
+            walk(c)
+    walk(t2)
+    if len(flat) < 2:
+        return None
+    a, b = rng.sample(flat, 2)
+    b["id"] = a["id"]
+    return t2
+
+
 PATHS = {"props": lambda t: impl_props(t)[1], "dict": lambda t: path_dict(t)[1], "json": path_json, "graph": path_graph}
 
 
@@ -659,21 +710,55 @@ def correspondence(ctx, res):
         reqs.append(["graph", wt])
         impl.append(["ok", {"back": b}])
         meta.append(t)
-    # 4. set / get / unset on real elements
-    for case in load_corpus("elem") + gen_elem_cases(ctx, ctx.sub_rng("corr-elem"), ctx.scale(1, 6), full=ctx.thorough):
+        # 3b. below a parent that is / is not in the graph (add_link looks both ends up), and with a node id taken twice
+        if t["k"] in PARENT_CLASS and not t.get("wild") and rng.random() < 0.5:
+            mode = rng.choice(["present", "missing"])
+            try:
+                b = sort_tree(observe(path_graph_parent(t, mode), wire))
+            except Exception as e:
+                b = ["err", err_kind(e)]
+            reqs.append(["graphx", wt, ["present", "c02-px", PARENT_CLASS[t["k"]]] if mode == "present" else ["missing", "c02-px"]])
+            impl.append(["ok", {"back": b}])
+            meta.append(t)
+            res.count("graph-parent:" + mode)
+        if t["c"] and not t.get("wild") and rng.random() < 0.3:
+            t2 = clash_ids(rng, t)
+            if t2 is not None:
+                try:
+                    wt2 = wire_tree(t2)
+                    try:
+                        b = sort_tree(observe(path_graph(t2), wire))
+                    except Exception as e:
+                        b = ["err", err_kind(e)]
+                    reqs.append(["graph", wt2])
+                    impl.append(["ok", {"back": b}])
+                    meta.append(t2)
+                    res.count("graph-id-clash:" + (b[1] if isinstance(b, list) else "accepted"))
+                except Exception as e:
+                    res.count("build-failed:" + err_kind(e))
+    # 4. every route to a property (set_property / set_properties / attribute, get_property / attribute,
+    #    unset_property / set_property(None) / attribute = None) on real elements at every position
+    for case in load_corpus("elem") + gen_elem_cases(ctx, ctx.sub_rng("corr-elem"), ctx.scale(1, 4), full=ctx.thorough):
         out = run_elem_case(case)
-        for (kind, gprops, ops, replies), o in zip(out["streams"], out["obs"]):
-            reqs.append(["elem", kind, gprops, ops])
+        for (cls, gprops, ops, replies), o in zip(out["streams"], out["obs"]):
+            reqs.append(["elemc", cls, gprops, ops])
             impl.append(["ok", replies])
-            meta.append({"elem": [[o["kind"], o["key"], o["value"]]]})
-    model = LeanDriver("C02").run([json.dumps(r) for r in reqs])
+            meta.append({"elem": [[o["pos"], o["key"], o["value"], o["opts"]]]})
+            res.count("elem-pos:" + o["pos"])
+            res.count("elem-class:" + cls)
+            for st in o["steps"]:
+                res.count("route:%s:%s" % (st["op"], st["route"]))
+    POOL.release()
+    model = run_driver([json.dumps(r) for r in reqs])
     for r, i, m, t in zip(reqs, impl, model, meta):
         res.evaluations += 1
         res.count("op:" + r[0])
         mj = json.loads(m)
-        if r[0] == "graph" and mj[0] == "ok" and isinstance(mj[1].get("back"), dict):
+        if r[0] == "elemc" and mj[0] == "ok":
+            mj[1] = [canon_data(x) for x in mj[1]]
+        if r[0] in ("graph", "graphx") and mj[0] == "ok" and isinstance(mj[1].get("back"), dict):
             mj[1]["back"] = sort_tree(mj[1]["back"])
-        if r[0] in ("props", "dict", "graph"):
+        if r[0] in ("props", "dict", "graph", "graphx"):
             n, d, p = tree_stats(t)
             if d >= 2 or p >= 3:
                 res.nontrivial.add(canon(r))
@@ -693,6 +778,22 @@ def correspondence(ctx, res):
         res.sample({"request": reqs[-1], "impl": impl[-1], "model": json.loads(model[-1])})
 
 
+def run_driver(lines, chunk=700):
+    """the interpreted driver in bounded batches: no single run holds the build lock for long"""
+    out = []
+    for i in range(0, len(lines), chunk):
+        out.extend(LeanDriver("C02").run(lines[i:i + chunk]))
+    return out
+
+
+def canon_data(x):
+    """a JSON blob as its `.data` getter shows it: the python object (JSON null is indistinguishable from absent)"""
+    if isinstance(x, list) and len(x) == 2 and x[0] == "data":
+        v = json.loads(x[1])
+        return None if v is None else ["data", json.dumps(v, sort_keys=True)]
+    return x
+
+
 def sort_tree(t):
     kids = [sort_tree(c) for c in t["c"]]
     kids.sort(key=lambda c: (c["k"], canon(c["f"].get("name")), canon(c)))
@@ -704,49 +805,142 @@ def strip_ids(t):
 
 
 # --------------------------------------------------------------------------
-# elements
+# elements: every route to a property of a model element, on elements at every position of a topology
 
 
 ELEM_CLASS = {"node": "Node", "component": "Component", "service": "NetworkService", "interface": "Interface", "link": "Link"}
 
+# position in the topology -> sliver kind (the first five are the positions of the first-round harness)
+POS_KIND = {"node": "node", "component": "component", "service": "service", "interface": "interface", "link": "link",
+            "subinterface": "interface", "topservice": "service", "serviceport": "interface",
+            "switch": "node", "switchservice": "service", "switchport": "interface",
+            "facility": "node", "facservice": "service", "facport": "interface",
+            "mirror": "service", "composite": "node"}
+BASE_POS = ["node", "component", "service", "interface", "link"]
+FULL_POS = BASE_POS + ["mirror", "composite", "subinterface"]      # every element class, and the deepest nesting
+SET_ROUTES = ["set_property", "set_properties", "attr"]
+UNSET_ROUTES = ["unset_property", "set_property_none", "attr_none"]
+PAIR_KEYS = ("image_ref", "image_type")
 
-def make_topology():
-    """a small slice model with one element of every kind; returns {kind: element}"""
-    from fim.user.topology import ExperimentTopology, SubstrateTopology
+
+GROUP_B = ["switch", "switchservice", "switchport", "facility", "facservice", "facport", "composite"]
+
+
+def make_topology(full=False, group=None):
+    """a slice model with an element at every nesting position; returns (topology, {position: element}).
+    `full=False`: only the five base positions.  `group`: "A" = the base positions and the ones built on them,
+    "B" = switch / facility / composite node (two smaller graphs: every graph operation scans the node list)."""
+    from fim.user.topology import ExperimentTopology
     r = R.get()
     t = ExperimentTopology()
-    n1 = t.add_node(name="n1", node_id="n1-id", site="RENC", ntype=r["NodeType"].VM)
-    n2 = t.add_node(name="n2", node_id="n2-id", site="UKY", ntype=r["NodeType"].VM)
-    c1 = n1.add_component(name="nic1", node_id="c1-id", ctype=r["ComponentType"].SmartNIC, model="ConnectX-6")
-    c2 = n2.add_component(name="nic2", node_id="c2-id", ctype=r["ComponentType"].SmartNIC, model="ConnectX-6")
-    i1 = c1.interface_list[0]
-    i2 = c2.interface_list[0]
-    svc = list(c1.network_services.values())[0]
-    link = t.add_link(name="l1", node_id="l1-id", ltype=r["LinkType"].Patch, interfaces=[i1, i2])
-    return t, {"node": n1, "component": c1, "service": svc, "interface": i1, "link": link}
+    els = {}
+    if group != "B":
+        n1 = t.add_node(name="n1", node_id="n1-id", site="RENC", ntype=r["NodeType"].VM)
+        n2 = t.add_node(name="n2", node_id="n2-id", site="UKY", ntype=r["NodeType"].VM)
+        c1 = n1.add_component(name="nic1", node_id="c1-id", ctype=r["ComponentType"].SmartNIC, model="ConnectX-6")
+        c2 = n2.add_component(name="nic2", node_id="c2-id", ctype=r["ComponentType"].SmartNIC, model="ConnectX-6")
+        i1, i1b = c1.interface_list
+        i2, i2b = c2.interface_list
+        svc = list(c1.network_services.values())[0]
+        link = t.add_link(name="l1", node_id="l1-id", ltype=r["LinkType"].Patch, interfaces=[i1, i2])
+        els.update({"node": n1, "component": c1, "service": svc, "interface": i1, "link": link})
+        if not full:
+            return t, els
+        n3 = t.add_node(name="n3", node_id="n3-id", site="UKY", ntype=r["NodeType"].VM)
+        c3 = n3.add_component(name="nic3", node_id="c3-id", ctype=r["ComponentType"].SmartNIC, model="ConnectX-6")
+        i3, i3b = c3.interface_list
+        els["subinterface"] = i1b.add_child_interface(name="sub1", node_id="sub1-id", labels=r["Labels"](vlan="100"))
+        top = t.add_network_service(name="s1", node_id="s1-id", nstype=r["ServiceType"].L2Bridge, interfaces=[i2b, i3])
+        els["topservice"] = top
+        els["serviceport"] = top.interface_list[0]
+        els["mirror"] = t.add_port_mirror_service(name="pm", node_id="pm-id", from_interface_name="p1", to_interface=i3b)
+    if group != "A":
+        from fim.user.composite_node import CompositeNode
+        G = r["G"]
+        sw = t.add_switch(name="sw", node_id="sw-id", site="RENC")
+        els["switch"] = sw
+        els["switchservice"] = list(sw.network_services.values())[0]
+        els["switchport"] = sw.interface_list[0]
+        fac = t.add_facility(name="fac", node_id="fac-id", site="RENC", capacities=r["Capacities"](bw=10), labels=r["Labels"](vlan="100"))
+        els["facility"] = fac
+        els["facservice"] = list(fac.network_services.values())[0]
+        els["facport"] = fac.interface_list[0]
+        t.graph_model.add_node(node_id="comp-id", label=G.CLASS_CompositeNode,
+                               props={G.PROP_NAME: "site1", G.PROP_TYPE: "Server", G.PROP_STITCH_NODE: "false"})
+        els["composite"] = CompositeNode(name="site1", node_id="comp-id", topo=t)
+    return t, els
+
+
+FALSY = {  # falsy-but-valid values, run on every position in every run
+    "node_map": [["t", []], ["t", ["", ""]]],
+    "tags": [["tags", []]],
+    "flags": [["F", "Flags", {}]],
+    "capacities": [["F", "Capacities", {}], ["F", "Capacities", {"core": 0}]],
+    "labels": [["F", "Labels", {}]],
+    "capacity_hints": [["F", "CapacityHints", {}]],
+    "location": [["F", "Location", {}], ["F", "Location", {"lat": 0.0, "lon": 0.0}]],
+    "reservation_info": [["F", "ReservationInfo", {}]],
+    "mf_data": [["J", "MeasurementData", x] for x in ("{}", "0", '""', "[]", "false", "null")],
+    "user_data": [["J", "UserData", x] for x in ("{}", "0", '""', "[]", "false", "null", "0.0")],
+    "layout_data": [["J", "LayoutData", x] for x in ("{}", "0", '""', "[]", "false", "null")],
+    "details": [["s", ""]], "site": [["s", ""]], "boot_script": [["s", ""]], "model": [["s", ""]],
+    "stitch_node": [["b", False]],
+    "mirror_vlan": [["s", ""], ["s", "0"]], "mirror_port": [["s", ""]], "controller_url": [["s", ""]],
+}
+
+
+def usable_elem(desc):
+    try:
+        mk_value(desc)
+        return True
+    except Exception:
+        return False
 
 
 def gen_elem_cases(ctx, rng, reps, full=True):
-    """a case = list of (kind, key, value description) triples, each run as set/get/unset/get on a fresh topology.
-    First pass: every settable name of every element kind with every pool value of the enumerated keys (so both
-    booleans, every enum member, every flag bit); further passes: random values."""
-    cases = []
-    for rep in range(reps):
-        for kind in KINDS:
-            triples = []
+    """-> list of cases {"elemb": [[position, key, value description, opts], ...]}: the triples of one case run on one
+    fresh topology, at most one per position (elements do not share graph nodes).  Every triple runs every route:
+    set through set_property / set_properties / attribute assignment, read through get_property and the attribute,
+    unset through unset_property / set_property(None) / attribute = None (pairings rotate with `rot`).
+    First pass: every settable name of every element position, with the falsy values and (base positions, thorough:
+    every position) every pool value of the enumerated keys; further passes: random values."""
+    per_pos = {}
+    for pos, kind in POS_KIND.items():
+        base = pos in BASE_POS
+        lst = []
+        for rep in range(reps):
             for k in settable(kind):
-                if rep == 0 and full and k in ENUMERATED:
-                    descs = value_pool(kind, k)
-                    if k == "type":
-                        descs = descs[:3]
-                elif rep == 0 and k == "stitch_node":
-                    descs = value_pool(kind, k)
+                if not ctx.thorough and pos not in FULL_POS and rng.random() < 0.6:
+                    continue        # quick tier: the positions that add no new element class get a sample of the names per run
+                if rep == 0:
+                    descs = list(FALSY.get(k, []))
+                    if k in ENUMERATED and (full or k == "stitch_node") and (base or ctx.thorough):
+                        pool = value_pool(kind, k)
+                        descs += pool[:3] if k == "type" else pool
+                    else:
+                        descs += [gen_value(rng, kind, k, 7) for _ in range(2 if base else 1)]
                 else:
-                    descs = [gen_value(rng, kind, k, 7) for _ in range(2 if rep == 0 else 1)]
+                    descs = [gen_value(rng, kind, k, 7)]
                 for d in descs:
-                    if usable(d):
-                        triples.append([kind, k, d])
-            cases.append({"elem": triples})
+                    if usable_elem(d):
+                        lst.append([pos, k, d, {"rot": rng.randrange(0, 9), "raw": rng.choice(["inst", "obj", "text"])}])
+                if k in PAIR_KEYS and rep == 0:     # with the other half of the image pair already stored
+                    for _ in range(2):
+                        lst.append([pos, k, gen_value(rng, kind, k, 7), {"rot": rng.randrange(0, 9), "ctx": "image-stored"}])
+        for _ in range(2 * reps):     # several keywords in one set_properties call
+            keys = [k for k in settable(kind) if k not in ("name", "type", "stitch_node") and k not in PAIR_KEYS]
+            ks = rng.sample(keys, min(len(keys), rng.randrange(2, 6)))
+            kw = {k: gen_value(rng, kind, k, 7) for k in ks}
+            if kind == "node" and rng.random() < 0.5:
+                kw["image_ref"], kw["image_type"] = ["s", rng.choice(STRS)], ["s", rng.choice(["qcow2", "raw", "a b"])]
+            if all(usable_elem(d) for d in kw.values()):
+                lst.append([pos, "*", kw, {}])
+        per_pos[pos] = lst
+    cases = []
+    n = max(len(v) for v in per_pos.values())
+    for i in range(n):
+        batch = [per_pos[pos][i] for pos in POS_KIND if i < len(per_pos[pos])]
+        cases.append({"elemb": batch})
     return cases
 
 
@@ -769,50 +963,248 @@ def elem_get(el, k):
         return ["err", err_kind(e)]
 
 
-def run_elem_case(case):
-    """runs every triple on a fresh topology; returns the driver streams and the oracle observations"""
-    streams, obs = [], []
-    for kind, k, d in case["elem"]:
-        topo, els = make_topology()
-        try:
-            el = els[kind]
-            _, props = topo.graph_model.get_node_properties(node_id=el.node_id)
-            gprops = {g: v for g, v in props.items() if g in model_gprops() and isinstance(v, str)}
-            ops, replies = [], []
-            v = mk_value(d)
-            # what the sliver's setter stores (the driver is handed the stored form)
-            fresh = R.get()["SLIVER"][kind]()
-            fresh.set_property(k, v)
-            stored = fresh.get_property(k)
-            before = elem_get(el, k)
-            try:
-                el.set_property(k, v)
-                sres = "ok"
-            except Exception as e:
-                sres = ["err", err_kind(e)]
+def attr_get(el, k):
+    try:
+        return ["ok", getattr(el, k)]
+    except Exception as e:
+        return ["err", err_kind(e)]
+
+
+def call(fn):
+    try:
+        fn()
+        return "ok"
+    except Exception as e:
+        return ["err", err_kind(e)]
+
+
+def attr_info(el, k):
+    """(has a python property of that name, it has a setter) - by introspection of the class, nothing else"""
+    p = getattr(type(el), k, None)
+    if not isinstance(p, property):
+        return False, False
+    return True, p.fset is not None
+
+
+def data_view(stored):
+    """what a `.data` getter shows of a stored JSONData value"""
+    return ["data", json.dumps(json.loads(stored.json), sort_keys=True)]
+
+
+def attr_reply(el, k, got):
+    """attribute read on the wire: JSON blobs are shown as python objects by their getters"""
+    if got[0] != "ok":
+        return got
+    v = got[1]
+    if k in ("mf_data", "user_data", "layout_data") and v is not None:
+        return ["data", json.dumps(v, sort_keys=True)]
+    if k in ("mf_data", "user_data", "layout_data"):
+        return None
+    return wire(v)
+
+
+def run_multi(topo, els, tr):
+    """[position, "*", {key: value description}, opts]: one set_properties(**kw) call with several keywords, then every
+    keyword read back"""
+    r = R.get()
+    pos, _, kw = tr[0], tr[1], tr[2]
+    opts = tr[3] if len(tr) > 3 else {}
+    kind = POS_KIND[pos]
+    el = els[pos]
+    _, props = topo.graph_model.get_node_properties(node_id=el.node_id)
+    gprops = {g: x for g, x in props.items() if g in model_gprops() and isinstance(x, str)}
+    vals, stored = {}, {}
+    for k, d in kw.items():
+        vals[k] = mk_value(d)
+        fresh = r["SLIVER"][kind]()
+        fresh.set_property(k, vals[k])
+        stored[k] = fresh.get_property(k)
+    before = {k: elem_get(el, k) for k in kw}
+    res = call(lambda: el.set_properties(**vals))
+    ops = [["setprops", [[k, wire(stored[k])] for k in kw]]]
+    replies = [res]
+    got = {}
+    for k in kw:
+        got[k] = elem_get(el, k)
+        ops.append(["get", k])
+        replies.append(wire(got[k][1]) if got[k][0] == "ok" else got[k])
+    stream = (type(el).__name__, gprops, ops, replies)
+    obs = {"pos": pos, "kind": kind, "cls": type(el).__name__, "key": "*", "value": kw, "opts": opts, "stored": stored,
+           "before": before, "res": res, "got": got, "steps": []}
+    return stream, obs
+
+
+def run_elem_triple(topo, els, tr):
+    """one (position, key, value) through every route; returns (driver stream, oracle observation)"""
+    r = R.get()
+    if tr[1] == "*":
+        return run_multi(topo, els, tr)
+    pos, k, d = tr[0], tr[1], tr[2]
+    opts = tr[3] if len(tr) > 3 else {}
+    kind = POS_KIND[pos]
+    el = els[pos]
+    rot = int(opts.get("rot", 0))
+    v = mk_value(d)
+    _, props = topo.graph_model.get_node_properties(node_id=el.node_id)
+    gprops = {g: x for g, x in props.items() if g in model_gprops() and isinstance(x, str)}
+    # what the sliver's setter stores (the driver is handed the stored form)
+    fresh = r["SLIVER"][kind]()
+    fresh.set_property(k, v)
+    stored = fresh.get_property(k)
+    has_get, has_set = attr_info(el, k)
+    # what is assigned through the attribute: for the JSON blobs an object of the class, a python object or a JSON text
+    assigned, stored_attr = v, stored
+    if isinstance(v, r["JSONData"]) and has_set:
+        raw = opts.get("raw", "inst")
+        obj = json.loads(v.json)
+        if raw == "text":
+            assigned = v.json
+        elif raw == "obj" and obj is not None and not isinstance(obj, str):
+            assigned = obj
+            stored_attr = type(v)(obj)
+    ops, replies, steps = [], [], []
+
+    def read(tag):
+        g1 = elem_get(el, k)
+        ops.append(["get", k])
+        replies.append(wire(g1[1]) if g1[0] == "ok" else g1)
+        g2 = None
+        if has_get:
+            g2 = attr_get(el, k)
+            ops.append(["attrget", k])
+            replies.append(attr_reply(el, k, g2))
+        return g1, g2
+
+    before = read("before")
+    sroutes = [s for s in SET_ROUTES if s != "attr" or has_set]
+    uroutes = [u for u in UNSET_ROUTES if u != "attr_none" or has_set]
+    sroutes = sroutes[rot % len(sroutes):] + sroutes[:rot % len(sroutes)]
+    last = before
+    for si, sr in enumerate(sroutes):
+        want = stored
+        if opts.get("ctx") == "image-stored":
+            # the other half of the image pair is in the graph when the route is taken
+            res = call(lambda: el.set_properties(image_ref="stored-image", image_type="qcow2"))
+            ops.append(["setprops", [["image_ref", ["s", "stored-image"]], ["image_type", ["s", "qcow2"]]]])
+            replies.append(res)
+            last = read("ctx")
+        if sr == "set_property":
+            res = call(lambda: el.set_property(k, v))
             ops.append(["set", k, wire(stored)])
-            replies.append(sres)
-            got = elem_get(el, k)
-            ops.append(["get", k])
-            replies.append(wire(got[1]) if got[0] == "ok" else got)
+        elif sr == "set_properties":
+            res = call(lambda: el.set_properties(**{k: v}))
+            ops.append(["setprops", [[k, wire(stored)]]])
+        else:
+            res = call(lambda: setattr(el, k, assigned))
+            ops.append(["attrset", k, wire(stored_attr)])
+            want = stored_attr
+        replies.append(res)
+        g = read("set")
+        steps.append({"op": "set", "route": sr, "res": res, "want": want, "prev": last, "got": g})
+        if si == 0:
+            # the third reader: the deep sliver of the element (build_deep_*_sliver on the live topology)
             try:
-                el.unset_property(k)
-                ures = "ok"
+                steps[-1]["sliver"] = ["ok", el.get_sliver().get_property(k)]
             except Exception as e:
-                ures = ["err", err_kind(e)]
+                steps[-1]["sliver"] = ["err", err_kind(e)]
+        last = g
+        ur = uroutes[(si + rot // 3) % len(uroutes)]
+        if ur == "unset_property":
+            res = call(lambda: el.unset_property(k))
             ops.append(["unset", k])
-            replies.append(ures)
-            got2 = elem_get(el, k)
-            ops.append(["get", k])
-            replies.append(wire(got2[1]) if got2[0] == "ok" else got2)
-            # every other property must still be readable
-            others = {}
-            for k2 in settable(kind):
-                g = elem_get(el, k2)
-                others[k2] = g[0] if g[0] == "ok" else g[1]
-            streams.append((kind, gprops, ops, replies))
-            obs.append({"kind": kind, "key": k, "value": d, "stored": stored, "before": before, "set": sres, "got": got,
-                        "unset": ures, "got2": got2, "others": others})
+        elif ur == "set_property_none":
+            res = call(lambda: el.set_property(k, None))
+            ops.append(["setnone", k])
+        else:
+            res = call(lambda: setattr(el, k, None))
+            ops.append(["attrset", k, None])
+        replies.append(res)
+        g = read("unset")
+        steps.append({"op": "unset", "route": ur, "res": res, "prev": last, "got": g})
+        last = g
+    # unsetting what is not there (any more): whatever the route answers, the property reads absent afterwards
+    ur = uroutes[(rot + 1) % len(uroutes)]
+    if ur == "unset_property":
+        res = call(lambda: el.unset_property(k))
+        ops.append(["unset", k])
+    elif ur == "set_property_none":
+        res = call(lambda: el.set_property(k, None))
+        ops.append(["setnone", k])
+    else:
+        res = call(lambda: setattr(el, k, None))
+        ops.append(["attrset", k, None])
+    replies.append(res)
+    g = read("unset")
+    steps.append({"op": "unset-absent", "route": ur, "res": res, "prev": last, "got": g})
+    # every other property must still be readable
+    # (one rebuild of the node's sliver, which is what each get_property does)
+    others = {}
+    try:
+        _, nprops = topo.graph_model.get_node_properties(node_id=el.node_id)
+        sl = r["FROM"][kind](nprops)
+        for k2 in settable(kind):
+            try:
+                sl.get_property(k2)
+                others[k2] = "ok"
+            except Exception as e:
+                others[k2] = err_kind(e)
+    except Exception as e:
+        others = {k2: err_kind(e) for k2 in settable(kind)}
+    stream = (type(el).__name__, gprops, ops, replies)
+    obs = {"pos": pos, "kind": kind, "cls": type(el).__name__, "key": k, "value": d, "opts": opts, "stored": stored,
+           "has_get": has_get, "has_set": has_set, "before": before, "steps": steps, "others": others}
+    return stream, obs
+
+
+class TopoPool:
+    """batched cases reuse the topologies for a few batches (every sequence leaves its property unset, each triple
+    hands the driver the node as it is at that moment, and findings are confirmed on a fresh topology): building a
+    topology is most of the cost of a batch"""
+    def __init__(self, uses=6):
+        self.uses, self.n, self.cur = uses, 0, None
+
+    def get(self):
+        if self.cur is None or self.n >= self.uses:
+            self.release()
+            self.cur = [make_topology(full=True, group="A"), make_topology(full=True, group="B")]
+            self.n = 0
+        self.n += 1
+        return self.cur
+
+    def release(self):
+        if self.cur is not None:
+            for t, _ in self.cur:
+                try:
+                    t.graph_model.delete_graph()
+                except Exception:
+                    pass
+        self.cur = None
+
+
+POOL = TopoPool()
+
+
+def run_elem_case(case):
+    """`elem`: every triple on its own fresh topology (minimised / corpus cases); `elemb`: all triples of the case on one"""
+    streams, obs = [], []
+    if "elemb" in case:
+        (ta, ea), (tb, eb) = POOL.get()
+        try:
+            for tr in case["elemb"]:
+                topo, els = (tb, eb) if tr[0] in GROUP_B else (ta, ea)
+                s, o = run_elem_triple(topo, els, tr)
+                streams.append(s)
+                obs.append(o)
+        except Exception:
+            POOL.release()
+            raise
+        return {"streams": streams, "obs": obs}
+    for tr in case["elem"]:
+        topo, els = make_topology(full=tr[0] not in BASE_POS, group="B" if tr[0] in GROUP_B else "A")
+        try:
+            s, o = run_elem_triple(topo, els, tr)
+            streams.append(s)
+            obs.append(o)
         finally:
             topo.graph_model.delete_graph()
     return {"streams": streams, "obs": obs}
@@ -911,37 +1303,290 @@ def default_of(kind, k):
     return R.get()["SLIVER"][kind]().get_property(k)
 
 
+def is_empty_codec(v):
+    """an all-default JSONField object: its text is the empty string, which is also how an absent value is stored
+    (C03 `roundtrip_iff` characterises exactly this class) - reading it back as absent is what C03 states"""
+    r = R.get()
+    if isinstance(v, r["JSONField"]):
+        try:
+            return v.to_json() == ""
+        except Exception:
+            return False
+    return False
+
+
+def attr_view(k, v):
+    """what the attribute getter shows for a stored value (oracle side)"""
+    r = R.get()
+    if isinstance(v, r["JSONData"]):
+        obj = json.loads(v.json)
+        return None if obj is None else ["pyobj", json.dumps(obj, sort_keys=True)]     # JSON null *is* python None
+    return ocanon(v)
+
+
+def attr_seen(k, v):
+    if k in ("mf_data", "user_data", "layout_data") and v is not None and not isinstance(v, R.get()["JSONData"]):
+        return ["pyobj", json.dumps(v, sort_keys=True)]
+    return ocanon(v)
+
+
 def check_elem(case, res):
+    """the property itself on elements: after a set through any route both readers return an equal value; after an
+    unset through any route both read absent; a rejected operation changes nothing; nothing else becomes unreadable.
+    A finding is identified by (element class of the kind, property, what) and by the routes on which it shows
+    (no route suffix when it shows on every route that was run)."""
     out = run_elem_case(case)
     for o in out["obs"]:
-        kind, k = o["kind"], o["key"]
-        c = {"elem": [[kind, k, o["value"]]]}
-        tag = "%s:%s" % (ELEM_CLASS[kind], k)
-        if o["set"] != "ok":
-            res.violation("C02:set_get:%s:set-raises:%s" % (tag, o["set"][1]), "set_property(%s) on a %s raises" % (k, ELEM_CLASS[kind]), c)
+        kind, k, cls = o["kind"], o["key"], ELEM_CLASS[o["kind"]]
+        c = {"elem": [[o["pos"], k, o["value"], o["opts"]]]}
+        if k == "*":
+            check_multi(o, c, res)
             continue
-        if o["got"][0] != "ok":
-            res.violation("C02:set_get:%s:get-raises:%s" % (tag, o["got"][1]),
-                          "get_property(%s) after set_property on a %s raises" % (k, ELEM_CLASS[kind]), c)
-        elif canon(ocanon(o["got"][1])) != canon(ocanon(o["stored"])):
-            what = "dropped" if canon(ocanon(o["got"][1])) == canon(ocanon(o["before"][1] if o["before"][0] == "ok" else None)) else "changed"
-            res.violation("C02:set_get:%s:%s" % (tag, what), "set_property(%s) then get_property on a %s does not return the value set" % (
-                k, ELEM_CLASS[kind]), c, expected=ocanon(o["stored"]), observed=ocanon(o["got"][1]))
+        tag = "%s:%s" % (cls, k)
+        ctx_s = (":ctx=" + o["opts"]["ctx"]) if o["opts"].get("ctx") else ""
+        dflt = canon(ocanon(default_of(kind, k)))
+        found = {}      # (family, what) -> {route: (expected, observed)}
+        ran = {"set": [], "unset": []}
+
+        def add(fam, what, route, exp=None, obs=None):
+            found.setdefault((fam, what), {})[route] = (exp, obs)
+
+        for st in o["steps"]:
+            g1, g2 = st["got"]
+            p1, p2 = st["prev"]
+            route = st["route"]
+            if st["op"] == "set":
+                ran["set"].append(route)
+                want = st["want"]
+                if st["res"] != "ok":
+                    add("set_get", "set-raises:" + st["res"][1], route)
+                    # a rejected set changes nothing
+                    if g1[0] == "ok" and p1[0] == "ok" and canon(ocanon(g1[1])) != canon(ocanon(p1[1])):
+                        add("set_get", "rejected-but-changed", route)
+                    continue
+                if g1[0] != "ok":
+                    add("set_get", "get-raises:" + g1[1], route)
+                    continue
+                ok_vals = [canon(ocanon(want))] + ([canon(None)] if is_empty_codec(want) else [])
+                if canon(ocanon(g1[1])) not in ok_vals:
+                    was = canon(ocanon(p1[1])) if p1[0] == "ok" else None
+                    what = "dropped" if canon(ocanon(g1[1])) == was else "changed"
+                    if k == "image_type" and what == "changed" and isinstance(want, str) and "," in want:
+                        what += ":image_type-comma"
+                    add("set_get", what, route, ocanon(want), ocanon(g1[1]))
+                elif st.get("sliver") is not None and (st["sliver"][0] != "ok" or canon(ocanon(st["sliver"][1])) not in ok_vals):
+                    add("set_get", "sliver-get-differs" if st["sliver"][0] == "ok" else "sliver-get-raises:" + st["sliver"][1], route,
+                        ocanon(want), ocanon(st["sliver"][1]) if st["sliver"][0] == "ok" else None)
+                elif g2 is not None and (k != "name" or route == "attr"):
+                    # `el.name` is the handle's cached name: it follows assignments to the attribute (and rename()), not set_property
+                    if g2[0] != "ok":
+                        add("set_get", "attr-get-raises:" + g2[1], route)
+                    elif canon(attr_seen(k, g2[1])) not in [canon(attr_view(k, want))] + ([canon(None)] if is_empty_codec(want) else []):
+                        add("set_get", "attr-get-differs", route, attr_view(k, want), attr_seen(k, g2[1]))
+            else:
+                if st["op"] == "unset":
+                    ran["unset"].append(route)
+                if st["res"] != "ok":
+                    # rejected: must change nothing (either reader)
+                    ch1 = g1[0] == "ok" and p1[0] == "ok" and canon(ocanon(g1[1])) != canon(ocanon(p1[1]))
+                    ch2 = g2 is not None and g2[0] == "ok" and p2[0] == "ok" and canon(attr_seen(k, g2[1])) != canon(attr_seen(k, p2[1]))
+                    if ch1 or ch2:
+                        add("unset_get", "rejected-but-changed", route, ocanon(p1[1]) if ch1 else attr_seen(k, p2[1]),
+                            ocanon(g1[1]) if ch1 else attr_seen(k, g2[1]))
+                    if st["op"] == "unset":
+                        continue
+                if g1[0] != "ok":
+                    add("unset_get", "get-raises:" + g1[1], route)
+                    continue
+                if st["res"] == "ok" and g1[1] is not None and canon(ocanon(g1[1])) != dflt:
+                    add("unset_get", "still-set", route, None, ocanon(g1[1]))
+                elif st["res"] == "ok" and g2 is not None and g2[0] == "ok" and g2[1] is not None and canon(attr_seen(k, g2[1])) != dflt \
+                        and k != "name":
+                    add("unset_get", "attr-still-set", route, None, attr_seen(k, g2[1]))
+                elif st["op"] == "unset-absent" and st["res"] != "ok" and g1[1] is not None and canon(ocanon(g1[1])) != dflt \
+                        and canon(ocanon(g1[1])) != canon(ocanon(p1[1]) if p1[0] == "ok" else None):
+                    add("unset_get", "appeared-after-failed-unset", route, None, ocanon(g1[1]))
         bad_others = sorted(x for x, y in o["others"].items() if y != "ok")
-        if bad_others and o["got"][0] == "ok":
+        if bad_others and not any(w.startswith("get-raises") for (_, w) in found):
             res.violation("C02:set_get:%s:other-reads-raise" % tag, "after set/unset of %s other properties cannot be read: %s" % (k, bad_others), c)
-        # unset
-        if o["unset"] != "ok":
-            # rejected: must change nothing
-            if o["got2"][0] == "ok" and o["got"][0] == "ok" and canon(ocanon(o["got2"][1])) != canon(ocanon(o["got"][1])):
-                res.violation("C02:unset_get:%s:rejected-but-changed" % tag, "rejected unset_property(%s) changed the value" % k, c)
+        for (fam, what), by_route in sorted(found.items()):
+            hit = [x for x in (SET_ROUTES if fam == "set_get" else UNSET_ROUTES) if x in by_route]
+            all_run = ran["set" if fam == "set_get" else "unset"]
+            everywhere = len(set(all_run)) > 1 and set(hit) >= set(all_run)
+            rs = "" if everywhere else ":routes=" + "+".join(hit)
+            exp, obs = by_route[hit[0]]
+            if fam == "unset_get" and what == "still-set":
+                # the unset table is shared by all element classes: the property name identifies the finding
+                sig = "C02:unset_get:%s:still-set%s%s" % (k, ctx_s, rs)
+                txt = "unsetting %s on a %s (position %s) leaves it readable" % (k, o["cls"], o["pos"])
+            elif fam == "unset_get":
+                sig = "C02:unset_get:%s:%s%s%s" % (tag, what, ctx_s, rs)
+                txt = "unset of %s on a %s (position %s): %s" % (k, o["cls"], o["pos"], what)
+            else:
+                sig = "C02:set_get:%s:%s%s%s" % (tag, what, ctx_s, rs)
+                txt = "setting %s on a %s (position %s) and reading it back: %s" % (k, o["cls"], o["pos"], what)
+            txt += " - through %s" % ("every route" if everywhere else "+".join(hit))
+            res.violation(sig, txt, c, expected=exp, observed=obs)
+
+
+def check_multi(o, c, res):
+    """several keywords in one set_properties call: every one of them reads back (the two halves of the image pair only
+    when both are given - alone they are the known fate-sharing findings)"""
+    cls = ELEM_CLASS[o["kind"]]
+    kw = o["value"]
+    if o["res"] != "ok":
+        res.violation("C02:set_get:%s:*:set_properties-raises:%s" % (cls, o["res"][1]),
+                      "set_properties(%s) on a %s (position %s) raises" % (sorted(kw), o["cls"], o["pos"]), c)
+        return
+    for k in sorted(kw):
+        if k in PAIR_KEYS and not all(x in kw for x in PAIR_KEYS):
             continue
-        if o["got2"][0] != "ok":
-            res.violation("C02:unset_get:%s:get-raises:%s" % (tag, o["got2"][1]), "get_property(%s) after unset raises" % k, c)
-        elif o["got2"][1] is not None and canon(ocanon(o["got2"][1])) != canon(ocanon(default_of(kind, k))):
-            # the unset table is shared by all element classes: the property name identifies the finding
-            res.violation("C02:unset_get:%s:still-set" % k, "unset_property(%s) on a %s leaves it readable" % (k, ELEM_CLASS[kind]), c,
-                          expected=None, observed=ocanon(o["got2"][1]))
+        g = o["got"][k]
+        want = o["stored"][k]
+        if g[0] != "ok":
+            res.violation("C02:set_get:%s:%s:get-raises:%s:routes=set_properties-multi" % (cls, k, g[1]),
+                          "get_property(%s) after set_properties(%s) raises" % (k, sorted(kw)), c)
+        elif canon(ocanon(g[1])) not in [canon(ocanon(want))] + ([canon(None)] if is_empty_codec(want) else []):
+            what = "changed"
+            if k == "image_type" and isinstance(want, str) and "," in want:
+                what += ":image_type-comma"
+            res.violation("C02:set_get:%s:%s:%s:routes=set_properties-multi" % (cls, k, what),
+                          "set_properties(%s) on a %s (position %s): %s does not read back" % (sorted(kw), o["cls"], o["pos"], k), c,
+                          expected=ocanon(want), observed=ocanon(g[1]))
+
+
+CTOR_SKIP = {"node": {"name", "type", "site"}, "component": {"name", "type", "model", "details"},
+             "service": {"name", "type", "layer", "technology", "site"}, "interface": {"name", "type"},
+             "link": {"name", "type", "layer", "technology"}}
+
+
+def check_ctor_routes(ctx, rng, res):
+    """properties handed to the constructors (`add_node(**kw)`, `add_component(**kw)`, `add_network_service(**kw)`,
+    `add_interface(**kw)`, `add_link(**kw)`): they reach the graph through sliver.set_properties + add_*_sliver and read
+    back through get_property.  Oracle only; a constructor that rejects the combination (constraint validation) is not a finding."""
+    from fim.user.topology import ExperimentTopology
+    r = R.get()
+    work = []
+    for kind in KINDS:
+        for k in settable(kind):
+            if k in CTOR_SKIP[kind] or k in PAIR_KEYS:
+                continue
+            for d in list(FALSY.get(k, []))[:1] + [gen_value(rng, kind, k, 9)]:
+                if usable_elem(d):
+                    work.append((kind, k, d))
+    if not ctx.thorough:
+        work = rng.sample(work, min(len(work), 90))
+    # small topologies: the name-uniqueness checks of the add_* calls scan the whole graph
+    for i in range(0, len(work), 10):
+        t = ExperimentTopology()
+        try:
+            host = t.add_node(name="host", site="RENC")
+            hsvc = t.add_network_service(name="hsvc", nstype=r["ServiceType"].L2Bridge, interfaces=[])
+            for j, (kind, k, d) in enumerate(work[i:i + 10]):
+                nm = "e%d" % j
+                v = mk_value(d)
+                fresh = r["SLIVER"][kind]()
+                fresh.set_property(k, v)
+                want = fresh.get_property(k)
+                c = {"ctor": [kind, k, d]}
+                try:
+                    if kind == "node":
+                        el = t.add_node(name=nm, site="RENC", **{k: v})
+                    elif kind == "component":
+                        el = host.add_component(name=nm, ctype=r["ComponentType"].GPU, model="RTX6000", **{k: v})
+                    elif kind == "service":
+                        el = t.add_network_service(name=nm, nstype=r["ServiceType"].L2Bridge, interfaces=[], **{k: v})
+                    elif kind == "interface":
+                        el = hsvc.add_interface(name=nm, itype=r["InterfaceType"].ServicePort, **{k: v})
+                    else:
+                        a = host.add_component(name=nm + "a", ctype=r["ComponentType"].SharedNIC, model="ConnectX-6")
+                        b = host.add_component(name=nm + "b", ctype=r["ComponentType"].SharedNIC, model="ConnectX-6")
+                        el = t.add_link(name=nm, ltype=r["LinkType"].Patch, interfaces=[a.interface_list[0], b.interface_list[0]], **{k: v})
+                except Exception as e:
+                    res.count("ctor-rejected:%s:%s" % (kind, err_kind(e)))
+                    continue
+                res.evaluations += 1
+                res.count("route:ctor:" + kind)
+                g = elem_get(el, k)
+                if g[0] != "ok":
+                    res.violation("C02:set_get:%s:%s:get-raises:%s:routes=ctor" % (ELEM_CLASS[kind], k, g[1]),
+                                  "get_property(%s) of a %s created with that keyword raises" % (k, ELEM_CLASS[kind]), c)
+                elif canon(ocanon(g[1])) not in [canon(ocanon(want))] + ([canon(None)] if is_empty_codec(want) else []):
+                    res.violation("C02:set_get:%s:%s:changed:routes=ctor" % (ELEM_CLASS[kind], k),
+                                  "a %s created with %s=... does not read it back" % (ELEM_CLASS[kind], k), c,
+                                  expected=ocanon(want), observed=ocanon(g[1]))
+        finally:
+            t.graph_model.delete_graph()
+
+
+def check_side_routes(res):
+    """the remaining ways to a property, oracle only: rename(), update_labels(), update_capacities(); and that an
+    attribute without a setter refuses assignment and changes nothing.  Deterministic, every position."""
+    r = R.get()
+    topo, els = make_topology(full=True)
+    try:
+        for pos, el in els.items():
+            cls = ELEM_CLASS[POS_KIND[pos]]
+            c = {"side": pos}
+            res.evaluations += 4
+            for what, cl, kws in (("labels", "Labels", [{"vlan": "5"}, {"local_name": "q", "vlan": "6"}]),
+                                  ("capacities", "Capacities", [{"core": 3}, {"ram": 0, "disk": 7}])):
+                for kw in kws:
+                    before = getattr(el, what)
+                    try:
+                        getattr(el, "update_" + what)(**kw)
+                        after = getattr(el, what)
+                    except Exception as e:
+                        res.violation("C02:set_get:%s:%s:update-raises:%s" % (cls, what, err_kind(e)),
+                                      "update_%s(%s) on a %s (position %s) raises" % (what, kw, type(el).__name__, pos), c)
+                        continue
+                    exp = dict(before.__dict__) if before is not None else dict(r[cl]().__dict__)
+                    exp.update(kw)
+                    got = dict(after.__dict__) if after is not None else None
+                    if got != exp:
+                        res.violation("C02:set_get:%s:%s:changed:routes=update" % (cls, what),
+                                      "update_%s(%s) on a %s (position %s): the fields read back differ" % (what, kw, type(el).__name__, pos),
+                                      c, expected=exp, observed=got)
+            # rename
+            new = "renamed-" + pos
+            try:
+                el.rename(new)
+                if el.name != new or el.get_property("name") != new:
+                    res.violation("C02:set_get:%s:name:changed:routes=rename" % cls, "rename on a %s (position %s) is not read back" % (
+                        type(el).__name__, pos), c, expected=new, observed=[el.name, el.get_property("name")])
+            except Exception as e:
+                res.violation("C02:set_get:%s:name:rename-raises:%s" % (cls, err_kind(e)), "rename raises", c)
+            # read-only attributes
+            for a in dir(type(el)):
+                p = getattr(type(el), a, None)
+                if isinstance(p, property) and p.fset is None and a in settable(POS_KIND[pos]):
+                    b = elem_get(el, a)
+                    try:
+                        setattr(el, a, "x")
+                        res.violation("C02:set_get:%s:%s:readonly-accepts" % (cls, a), "assignment to the read-only attribute is accepted", c)
+                    except AttributeError:
+                        pass
+                    if canon(ocanon(elem_get(el, a)[1])) != canon(ocanon(b[1])):
+                        res.violation("C02:set_get:%s:%s:readonly-changed" % (cls, a), "refused assignment changed the value", c)
+    finally:
+        topo.graph_model.delete_graph()
+
+
+def check_elem_confirmed(case, res):
+    """batched triples share a topology: a finding is reported from a re-run of its triple alone on a fresh topology,
+    so that the recorded case replays by itself"""
+    from core import Result
+    if "elemb" not in case:
+        return check_elem(case, res)
+    tmp = Result()
+    check_elem(case, tmp)
+    seen = set()
+    for v in tmp.violations:
+        key = canon(v["case"])
+        if key in seen:
+            continue
+        seen.add(key)
+        check_elem(v["case"], res)
 
 
 def load_corpus(what):
@@ -956,6 +1601,8 @@ def load_corpus(what):
                     out.append(c["tree"])
                 if what == "elem" and "elem" in c:
                     out.append({"elem": c["elem"]})
+                if what == "elem" and "elemb" in c:
+                    out.append({"elemb": c["elemb"]})
     return out
 
 
@@ -970,11 +1617,16 @@ def oracle(ctx, res, n=None):
         res.count("kind:" + t["k"])
         res.count("depth:%d" % d)
         check_tree(t, res)
-    for case in load_corpus("elem") + gen_elem_cases(ctx, ctx.sub_rng("oracle-elem"), ctx.scale(1, 12)):
-        res.evaluations += len(case["elem"])
-        for tr in case["elem"]:
-            res.nontrivial.add(canon(tr))
-        check_elem(case, res)
+    for case in load_corpus("elem") + gen_elem_cases(ctx, ctx.sub_rng("oracle-elem"), ctx.scale(1, 8)):
+        trs = case.get("elemb") or case["elem"]
+        res.evaluations += len(trs)
+        for tr in trs:
+            res.nontrivial.add(canon(tr[:3]))
+            res.count("elem-pos:" + tr[0])
+        check_elem_confirmed(case, res)
+    POOL.release()
+    check_side_routes(res)
+    check_ctor_routes(ctx, ctx.sub_rng("oracle-ctor"), res)
     res.sample({"tree": cases[len(cases) // 2], "paths": ["props", "dict", "json", "graph"]})
 
 
@@ -990,7 +1642,7 @@ def search(ctx, res, broken):
                 res.evaluations += 1
                 if "tree" in orig:
                     check_tree(orig["tree"], res)
-                else:
+                elif "elem" in orig:
                     check_elem(orig, res)
     if not res.violations:
         oracle(ctx, res, n=ctx.scale(1500, 8000))
@@ -1002,6 +1654,10 @@ def replay(ctx, payload):
     c = payload["case"]
     if "tree" in c:
         check_tree(c["tree"], r, paths=tuple(c.get("paths") or ALL_PATHS))
+    elif "side" in c:
+        check_side_routes(r)
+    elif "ctor" in c:
+        check_ctor_routes(ctx, ctx.sub_rng("oracle-ctor"), r)
     else:
         check_elem(c, r)
     want = payload.get("signature")
